@@ -5,6 +5,7 @@ import (
 	"go/ast"
 	"go/token"
 	"go/types"
+	"regexp"
 	"regexp/syntax"
 	"sort"
 	"strings"
@@ -236,6 +237,8 @@ func checkC17(c *Ctx) {
 	checkLoopTotality(c, "C17.R7.loop-totality", pk, "codescan", 40, codescanLoopExits)
 	checkTypeOfNil(c, "C17.R1.typeof-nil", pk)
 	checkPathRequiredLast(c, "C17.R6.path-required", pk)
+	checkNamePatterns(c, "C17.R4.name-patterns", pk)
+	checkListSplits(c, "C17.R6.list-splits", pk)
 	checkBuilderFields(c, "C17.R6.builder-fields", pk)
 	checkArgumentRoles(c, "C17.R6.argument-roles", pk, "codescan", 3)
 	checkAliasExpansionGuard(c, "C17.R1.alias-recursion", pk)
@@ -939,7 +942,6 @@ var codescanLoopExits = map[string]string{
 	"codescan.schemaBuilder.buildFromInterface › loop over types.Interface.NumEmbeddeds #1 › conditional store #1": "!allOfMember(‹*ast.Field›.Doc) ⇒ embedded interface without swagger:allOf: inlined as an allOf member built from its methods",
 }
 
-
 // checkTypeOfNil: reflect.TypeOf(nil) is a nil Type; calling a method on it panics. Every
 // `reflect.TypeOf(E).M()` over a value that comes from source text (enum constants) is dominated by
 // `E != nil`.
@@ -991,7 +993,6 @@ func checkTypeOfNil(c *Ctx, rule string, pk *packages.Package) {
 		c.Unk(rule, "codescan › reflect.TypeOf(…).M()", "", "no such call found (anchor: schemaBuilder.buildFromType)")
 	}
 }
-
 
 // checkAliasExpansionGuard: while an alias declaration is built, buildFromType replaces a named type
 // by its underlying type and recurses; a type that refers to itself would be expanded forever. The arm
@@ -1054,7 +1055,6 @@ func checkAliasExpansionGuard(c *Ctx, rule string, pk *packages.Package) {
 		c.Unk(rule, "codescan.schemaBuilder.buildFromType › alias expansion arm", c.posOf(pk, fd.Pos()), "no arm testing Assign.IsValid() and recursing on Underlying() found")
 	}
 }
-
 
 // checkPathRequiredLast: Swagger 2.0 wants every path parameter required; the scanner forces it —
 // which only holds if the store comes after the field's doc comment (where `required: false` can
@@ -1186,8 +1186,65 @@ func checkBuilderFields(c *Ctx, rule string, pk *packages.Package) {
 	}
 }
 
-
 // builderFieldsNeverSet: fields that no constructor sets, reviewed.
 var builderFieldsNeverSet = map[string]string{
 	"routesBuilder.parameters": "set by no constructor: the base list handed to newSetParams is empty by design (a route's parameters come from its own `Parameters:` section and from the swagger:parameters structs that name its operation id, merged afterwards)",
+}
+
+// checkNamePatterns: annotations that name a Go type or a response must accept every identifier,
+// one-letter ones included.
+func checkNamePatterns(c *Ctx, rule string, pk *packages.Package) {
+	c.Rule(rule, "the patterns of swagger:model, swagger:response and swagger:enum capture one-letter names", 3)
+	for _, it := range []struct{ v, ann string }{{"rxModelOverride", "swagger:model"}, {"rxResponseOverride", "swagger:response"}, {"rxEnum", "swagger:enum"}} {
+		lit, ok := packageRegexpByName(pk, it.v)
+		if !ok {
+			c.Anchor(rule, "codescan."+it.v, "not a package-level regexp compiled from a literal")
+			continue
+		}
+		rx, err := regexp.Compile(lit)
+		if err != nil {
+			c.Anchor(rule, "codescan."+it.v, "literal does not compile")
+			continue
+		}
+		bad := ""
+		for _, nm := range []string{"T", "Ab", "notFound", "pet_store2"} {
+			if m := rx.FindStringSubmatch(it.ann + " " + nm); m == nil || m[len(m)-1] != nm {
+				bad = nm
+			}
+		}
+		c.Check(bad == "", rule, "codescan."+it.v+" › captures any identifier", "codescan/regexprs.go", "one-letter and longer names are captured",
+			"`"+it.ann+" "+bad+"` is not matched by "+lit+": the annotated declaration is dropped from the document (and references to it dangle)")
+	}
+}
+
+// checkListSplits: a list whose elements are trimmed after splitting admits blanks around its
+// separator — so it must be split on the separator alone; splitting on separator+blank keeps
+// `a,b` as one element.
+func checkListSplits(c *Ctx, rule string, pk *packages.Package) {
+	c.Rule(rule, "no strings.Split on a separator followed by a blank", 1)
+	info := pk.TypesInfo
+	n := 0
+	for _, fd := range load.AllFuncs(pk) {
+		fd := fd
+		ast.Inspect(fd.Body, func(nd ast.Node) bool {
+			call, ok := nd.(*ast.CallExpr)
+			if !ok || len(call.Args) != 2 {
+				return true
+			}
+			if fn := goan.Callee(info, call); fn == nil || goan.CalleeName(fn) != "strings.Split" {
+				return true
+			}
+			sep, ok := goan.StringVal(info, call.Args[1])
+			if !ok {
+				return true
+			}
+			n++
+			c.Check(!(len(sep) > 1 && strings.HasSuffix(sep, " ")), rule, fmt.Sprintf("codescan.%s › strings.Split(%s, %q)", load.FuncName(fd), goan.ExprString(call.Args[0]), sep), c.posOf(pk, call.Pos()), "separator alone",
+				fmt.Sprintf("the list is split on %q: written without the blank (`http,https`) it stays one element, which is not a valid value", sep))
+			return true
+		})
+	}
+	if n == 0 {
+		c.Unk(rule, "codescan › strings.Split calls", "", "none found")
+	}
 }
